@@ -125,9 +125,17 @@ CLAIMED.update({
             "DESIGN.md §4 C16 / §9"),
 })
 
+CLAIMED.update({
+    "C13": ("write-site classification of the JSON buffer (constant / json.RawMessage by type / encoder result) with error-path exemption decided from the returns reachable after the write + must-pass-through (a value is written on every path that can return nil; every iteration of a separator-writing loop writes its element) + backward provenance of rename/symlink destinations + all-members rule on the duplicate out-name set of StructType.compile (thin claim)",
+            "Five structural necessary conditions: everything written into the rebuilt top-level _outs is JSON by construction (keys and moved paths go through json.Marshal; raw strings only on paths that end in a non-nil error); "
+            "every path through a writer that can succeed has written a value; no iteration of a separator-writing loop skips its element; files are moved/linked to the path built from the member's GetOutFilename(); "
+            "the compiler's duplicate out-name rejection looks up and records every member with a non-empty out filename, and the struct synthesised from each callable's outputs goes through it.",
+            "Thin: file contents, existence of files, relative-symlink arithmetic, validity of the assembled JSON beyond these conditions, and the display output are not decided.",
+            "DESIGN.md §4 C13"),
+})
+
 NOT_APPLICABLE = {
     "C01": "Equality of delivered argument values with the denotation of binding expressions quantifies over run-time JSON values and fork matching for all programs; no clause is a fact about the shape of the code, so any static rule would be a proxy, not a necessary condition.",
-    "C13": "Materialisation of files under outs/ and the rewritten _outs are file-system effects and hand-assembled JSON values; the only structural candidate (bracket pairing of the JSON writers) does not imply validity and is exercised by the existing golden tests.",
 }
 
 PENDING_REASON = "check not built yet in this revision (planned static rules are described in DESIGN.md §4); not claimed until the rule is armed and tested both ways"
